@@ -36,8 +36,9 @@ CHECKS = {
             'AnnotateResidues.run_system / convert_dssp_to_martini; TLC judges recorded runs on larger random inputs',
             'Exhaustive over all systems of <=3-4 molecules x selection flags x residue counts x sequence lengths, and over all '
             'DSSP strings up to the bound; the real functions must return exactly TLC\'s expectation for each.',
-            'Trusts TLC; residue order is the order of lowest node key per residue (as partition_graph documents); DSSP '
-            'executable path not exercised.',
+            'Trusts TLC; residue order is the order of lowest node key per residue (as partition_graph documents). The DSSP route '
+            '(DsspFormat / DsspFile / DsspRoute models, a scripted executable, martinize2 -dssp/-ss/-collagen runs) is bound too; '
+            'version-string warnings are not judged.',
             'DESIGN.md section 5 / C17'),
     'C07': ('model_checking',
             'TLA+ spec DeferredWriter (directory, pending table, one action per file-system primitive of finalisation, Crash '
@@ -60,8 +61,9 @@ CHECKS = {
             'any order, with every listed fault injected at every position) is loaded by the real read_ff and compared with the '
             'model library and with the description each object was rendered from; tokeniser, prefix/order normalisation, ITP '
             'pragma state and the section-header rule are bound row by row.',
-            'Trusts TLC, the chunk renderer, and the independent line classifier for shipped files. .map/.mapping content is bound '
-            'only through the shared header rule. Lines like "} {" (negative brace depth) are outside the grammar.',
+            'Trusts TLC, the chunk renderer, and the independent line classifier for shipped files. Also MapFile (.map weights), '
+            'MappingFile (.mapping director), ItpFile (.itp content) and a load-history family (interleaved loads, fresh process '
+            'each). Lines like "} {" (negative brace depth) are outside the grammar.',
             'DESIGN.md section 5 / C13'),
     'C06': ('model_checking',
             'TLA+ spec SubIso (declarative induced embeddings, Aut(pattern), classes modulo Aut, maximum common induced '
@@ -83,7 +85,9 @@ CHECKS = {
             'the recorded order and requires the final table to match (later links override, nothing unjustified, geometry '
             'from the matched atoms).',
             'Trusts TLC and the interposition on vermouth.processors.do_links.match_link. Links are built as objects (grammar is '
-            'C13). Not generated: self-modifying links, non-numeric non-edge partner orders, angle/dihedral effectors.',
+            'C13) for a 38-link feature pool, and taken from every shipped force field on real coarse-grained molecules (all four '
+            'geometry effectors: TLC returns exact integer invariants, Python applies sqrt/acos/atan2 and the format). Not generated: '
+            'self-modifying links, non-numeric non-edge partner orders.',
             'DESIGN.md section 5 / C05'),
     'C19': ('model_checking',
             'TLA+ spec MutMod (specification parser as the implementation splits it, Format as its inverse with the law '
@@ -102,8 +106,9 @@ CHECKS = {
             'For each recorded run TLC recomputes all placements, their order, the complete output (particles in order with '
             'residue numbers, retained input residue number, constituents with weights, intra- and inter-placement bonds, block '
             'interactions) and the two warnings from the declarative definitions and requires the real output to equal them.',
-            'Trusts TLC and the interposition. Mappings are built as objects with integer weights; modification mappings are not '
-            'generated; runs where two placements share their lowest atom are not judged.',
+            'Trusts TLC and the interposition (apply_block_mapping, apply_mod_mapping). Block and modification universes, the '
+            'cover() model (MappingCover) replayed, real structures with the shipped mappings. Runs where two placements tie on '
+            'their sort key or several particles qualify for re-use are reported unjudged.',
             'DESIGN.md section 5 / C01'),
     'C09': ('model_checking',
             'TLA+ operator Mean (exact weighted mean over the positioned constituents in integer arithmetic, NaN iff the '
@@ -184,8 +189,9 @@ CHECKS = {
             'placements fit and cover every unexplained atom exactly once (every anchor at least once), canonical names and '
             'renames applied, all atoms of the touched residues labelled, unexplainable groups removed with a warning, nothing kept '
             'silently, no label without a modification.',
-            'Trusts TLC and the interposition. Templates have >= 1 added atom; -modify pre-labelled atoms are not generated; '
-            'known finding D17 (AssertionError for two differently-anchored groups on one residue) is reported as KNOWN-FINDING.',
+            'Trusts TLC and the interposition. Families: exhaustive small scope (PTMSmall), synthetic decorations, requested '
+            'modifications through the real RepairGraph, real structures with the shipped charmm modifications. Atoms dropped by '
+            'RepairGraph from a residue carrying a request are counted, not flagged (C19 specifies that removal).',
             'DESIGN.md section 5 / C14'),
     'C11': ('exploration',
             'TLA+ relation PipelineEq (equal particle lists, interactions equal as bags with numeric parameters within the last '
@@ -194,8 +200,10 @@ CHECKS = {
             'PYTHONHASHSEED), outputs parsed by independent readers',
             'Sampling of presentations across inputs and option sets; every pair is decided by TLC from the files both runs '
             'wrote. Exploration, not enumeration: a hyperproperty of the whole pipeline.',
-            'Trusts TLC, the independent ITP/PDB readers, and that lattice rotations are exact on the 0.001 A PDB grid. DSSP '
-            'executable path not exercised.',
+            'Trusts TLC, the independent ITP/PDB readers, and that lattice rotations are exact on the 0.001 A PDB grid. Two routes '
+            '(files of subprocess runs; abstract system after every Processor.run_system of an in-process run, TLC names the first '
+            'differing stage). Also runs spec/Martinize.tla: stage order and contracts for every option vector, replayed into the '
+            'real entry(). Known finding C11-nt-nh3. -go / -dssp pairs are not generated.',
             'DESIGN.md section 5 / C11'),
 }
 
